@@ -64,12 +64,25 @@ struct {
 	__type(value, struct qos_stats);
 } qos_stats_map SEC(".maps");
 
+/* Nanoseconds per second */
+#define NSEC_PER_SEC 1000000000ULL
+
 /* Update token bucket and check if packet can pass
  * Returns: 1 if packet allowed, 0 if should be dropped
+ *
+ * Refill: tokens are earned at rate_bps / 8 bytes per second.  last_update only
+ * advances by the time that the credited tokens account for, so the remainder
+ * of a token interval is carried to the next packet instead of being lost
+ * (packets arriving faster than one token interval still earn their tokens),
+ * and a dropped packet does not reset the clock.  All products stay below 2^63:
+ * burst_bytes is 32 bits wide and the elapsed time is only multiplied by the
+ * rate when it is shorter than the time needed to fill the whole bucket.
  */
 static __always_inline int token_bucket_check(struct token_bucket *tb, __u32 pkt_len) {
 	__u64 now = bpf_ktime_get_ns();
+	__u64 rate_Bps;
 	__u64 elapsed_ns;
+	__u64 fill_ns;
 	__u64 new_tokens;
 	__u64 tokens_needed;
 
@@ -77,21 +90,30 @@ static __always_inline int token_bucket_check(struct token_bucket *tb, __u32 pkt
 	if (tb->rate_bps == 0)
 		return 1;
 
-	/* Calculate elapsed time since last update */
-	elapsed_ns = now - tb->last_update;
-
-	/* Calculate new tokens to add (rate_bps / 8 = bytes per second) */
-	/* tokens = elapsed_ns * (rate_bps / 8) / 1e9 */
-	/* Simplified: tokens = elapsed_ns * rate_bps / 8e9 */
-	new_tokens = (elapsed_ns * (tb->rate_bps / 8)) / 1000000000ULL;
-
-	/* Add tokens, capped at burst size */
-	tb->tokens += new_tokens;
-	if (tb->tokens > tb->burst_bytes)
-		tb->tokens = tb->burst_bytes;
-
-	/* Update timestamp */
-	tb->last_update = now;
+	/* Bytes per second.  Rates of 1..7 bit/s earn no whole byte: such a
+	 * bucket is never refilled and only hands out the tokens it holds. */
+	rate_Bps = tb->rate_bps / 8;
+	if (rate_Bps > 0) {
+		elapsed_ns = now - tb->last_update;
+		/* Time to fill an empty bucket */
+		fill_ns = ((__u64)tb->burst_bytes * NSEC_PER_SEC) / rate_Bps;
+		if (elapsed_ns > fill_ns) {
+			/* Idle long enough to fill the bucket whatever it held */
+			tb->tokens = tb->burst_bytes;
+			tb->last_update = now;
+		} else {
+			/* elapsed_ns * rate_Bps <= burst_bytes * 1e9 < 2^62 */
+			new_tokens = (elapsed_ns * rate_Bps) / NSEC_PER_SEC;
+			if (new_tokens > 0) {
+				tb->tokens += new_tokens;
+				if (tb->tokens > tb->burst_bytes)
+					tb->tokens = tb->burst_bytes;
+				/* Consume only the time these tokens cost (rounded up,
+				 * never more than elapsed_ns) */
+				tb->last_update += (new_tokens * NSEC_PER_SEC + rate_Bps - 1) / rate_Bps;
+			}
+		}
+	}
 
 	/* Check if we have enough tokens for this packet */
 	tokens_needed = pkt_len;
